@@ -57,17 +57,27 @@ def gen_cases(rng, tier):
         nd = len(pools.effective_dice(hs))
         which, cls = pools.gen_which(rng, nd)
         cases.append({"kind": "rwc", "dice": hs, "which": which, "shape": shape, "cls": cls})
+        if pools.int_valued(hs) and rng.random() < 0.25:
+            # the same pool with float / Fraction outcomes, enumerated in the same interpreter right after (and, in
+            # the reversed rerun, right before) its int twin: rolls carry the outcomes of THEIR dice
+            cases.append({"kind": "rwc", "dice": hs, "which": which, "shape": shape, "cls": cls,
+                          "otyp": rng.choice(["float", "Fraction"])})
     return cases
 
 
 def impl_run(case):
-    p = pools.py_pool(case["dice"])
+    p = pools.py_pool(case["dice"], case.get("otyp"))
     try:
         agg = {}
+        types = set()
         for roll, count in p.rolls_with_counts(*pools.py_which(case["which"])):
             key = tuple(Fraction(x) for x in roll)
             agg[key] = agg.get(key, 0) + count
-        return {"ok": pools.agg_to_list(agg)}
+            types.update(type(x).__name__ for x in roll)
+        out = {"ok": pools.agg_to_list(agg)}
+        if "otyp" in case or pools.int_valued(case["dice"]):
+            out["types"] = sorted(types)
+        return out
     except (ValueError, TypeError, IndexError, ZeroDivisionError) as e:
         return {"exc": type(e).__name__}
 
@@ -111,6 +121,8 @@ def oracle(case):
 
 
 def agree(case, r, o):
+    if "types" in r and r["types"] not in ([], [case.get("otyp", "int")]):
+        return False      # outcomes of another numeric type than the dice's
     return {x: r.get(x) for x in ("ok", "exc")} == {x: o.get(x) for x in ("ok", "exc")}
 
 
